@@ -83,7 +83,7 @@ Proof. unfold apply_txs. apply fold_left_app. Qed.
 Lemma step_LC s st : Inv s -> step_pre st ->
   forall l, LC (fst (do_step cfg s st)) l = apply_txs (LC s) (accepted [st]) l.
 Proof.
-  intros HI Hst l. destruct st as [t| | | | | |]; cbn [do_step fst PipelineSpec.accepted].
+  intros HI Hst l. destruct st as [t| | | | | | |]; cbn [do_step fst PipelineSpec.accepted].
   - pose proof HI as (_ & _ & Hbg & _). unfold commit. rewrite Hbg.
     destruct (tx_valid cfg t); cbn [negb fst]; [|reflexivity].
     unfold LC at 1. cbn [queue]. rewrite map_app, apply_txs_app. reflexivity.
@@ -93,6 +93,7 @@ Proof.
   - destruct (enact_all_props s (proj1 HI)) as (_ & a2 & a3 & _). apply (log_step_LC s _ a2 (proj1 (proj2 a3))).
   - reflexivity.
   - apply reopen_LC. exact HI.
+  - reflexivity.
 Qed.
 
 Lemma run_LC steps : forall s, Inv s -> Forall step_pre steps ->
